@@ -457,6 +457,7 @@ def pathLaws : MLaws (pathOps E) where
   Repr := PRepr
   sat := fun _ r q => pathOk E r q
   wf := fun _ => True
+  okIns := fun _ => True
   sat_congr := by intros; rfl
   repr_empty := ⟨by simp [pathOps, Path.empty], erepr_empty _, erepr_empty _⟩
   repr_congr := by
@@ -469,7 +470,7 @@ def pathLaws : MLaws (pathOps E) where
     have h0' : m.count = 0 := h0
     rw [h0'] at this
     exact List.eq_nil_of_length_eq_zero (Nat.le_zero.mp this)
-  repr_insert := fun m L r h hU => prepr_insert m L r h hU
+  repr_insert := fun m L r h hU _ => prepr_insert m L r h hU
   repr_remove := fun m L id h hU => prepr_remove m L id h hU
   remove_some := fun m L id r h hU hr _ hid => premove_some m L id r h hU hr hid
   remove_none := fun m L id h hno => premove_none m L id h hno
